@@ -323,8 +323,13 @@ def run(ctx):
                         st["revive_checks"] += 1
                 else:
                     st["unjudged"] += 1
-                # model: every counted key is visible afterwards -> its text is offered for its own code
+                # model: every counted key is stored with a positive count (visible) once the commit is flushed
+                pdb_after = sum(1 for c in dmain.op_cmd if c <= b)
+                vis_after = h.extra[main]["V"].get(pdb_after, {})
                 st["learned_presence_checks"] += len(counted_keys)
+                if any(vis_after.get(kk) != "1" for kk in counted_keys):
+                    viol.append(("model:learned-not-visible", "the model does not hold a counted key as visible after the commit was flushed",
+                                 _replay(h, kind, x, a, b, committed, before, after), False))
             elif kind == "delete" and len(deletes) == 1:
                 deleted = None
                 for l in out.get(a + 2, []):
@@ -334,11 +339,22 @@ def run(ctx):
                     continue
                 st["delete_checks"] += 1
                 nontrivial.add((h.schema, x, deleted, "delete"))
+                di, dev = deletes[0]
+                dkeys = [kk for kk, c in h.extra[main]["CALLS"].get(di, []) if kk != "none"]
+                pdb_after = sum(1 for c in dmain.op_cmd if c <= b)
+                vis_after = h.extra[main]["V"].get(pdb_after, {})
+                if any(vis_after.get(kk) != "0" for kk in dkeys):
+                    viol.append(("model:deleted-still-visible", "the model does not hide a deleted key",
+                                 _replay(h, kind, x, a, b, deleted, before, after), False))
                 if deleted in after:
                     static = deleted in baseline[h.schema].get(x, [])
                     sentence = syllables_of(h.schema, x) >= 2 and after.index(deleted) == 0
-                    if static or sentence:
+                    if static:
                         st["delete_static_or_sentence"] += 1
+                        st["delete_still_offered_by_static_dictionary"] = st.get("delete_still_offered_by_static_dictionary", 0) + 1
+                    elif sentence:
+                        st["delete_static_or_sentence"] += 1
+                        st["delete_recomposed_as_sentence"] = st.get("delete_recomposed_as_sentence", 0) + 1
                     else:
                         viol.append(("delete:%s:still-offered" % h.schema, "a deleted learned phrase is still offered although neither the static dictionary nor sentence composition yields it",
                                      _replay(h, kind, x, a, b, deleted, before, after), True))
